@@ -900,33 +900,113 @@ func c04R4(c *Ctx) {
 // W's own signature (the callback it wraps / chains to) receives W's own
 // parameters, position by position.  tolerate(call, i, arg) may accept another
 // argument (the root descriptor on the path where the node equals the root).
-func c04ForwardsOwnArgs(W *ssa.Function, tolerate func(call ssa.CallInstruction, i int, arg ssa.Value) bool) (n int, bad string, pos token.Pos) {
-	for _, call := range Calls(W, func(string) bool { return true }) {
-		cc := call.Common()
-		if cc.IsInvoke() || StaticCallee(call) != nil {
-			continue
+func c04ForwardsOwnArgs(p *Prog, W *ssa.Function, fields map[*types.Var]bool, tolerate func(call ssa.CallInstruction, i int, arg ssa.Value) bool) (n int, bad string, pos token.Pos) {
+	// the callbacks being wrapped: values read from the option fields, directly or through a captured variable /
+	// a field of a state struct filled from them (a locally defined step such as selectPlatform is not one)
+	isPrev := func(v ssa.Value) bool {
+		isField := func(x ssa.Value) bool {
+			for fv := range fields {
+				if c01IsFieldValue(x, fv) {
+					return true
+				}
+			}
+			return false
 		}
-		if _, isB := cc.Value.(*ssa.Builtin); isB {
-			continue
+		rs := Roots(v)
+		if len(rs) == 0 {
+			return false
 		}
-		sig, ok := cc.Value.Type().Underlying().(*types.Signature)
-		off := len(W.Params) - len(cc.Args) // 1 when the wrapper is a method (receiver first)
-		if !ok || !types.Identical(sig, W.Signature) || off < 0 || off > 1 {
-			continue
+		for _, r := range rs {
+			if isField(r) {
+				continue
+			}
+			srcs, ok := c01CarriedSources(p, r)
+			if !ok {
+				return false
+			}
+			for _, sv := range srcs {
+				okSrc := false
+				for _, r2 := range Roots(sv) {
+					if isField(r2) {
+						okSrc = true
+					}
+				}
+				if !okSrc {
+					return false
+				}
+			}
+		}
+		return true
+	}
+	check := func(call ssa.CallInstruction, args []ssa.Value, what string) {
+		off := len(W.Params) - len(args) // 1 when the wrapper is a method (receiver first)
+		if off < 0 || off > 1 {
+			return
 		}
 		n++
-		for i, a := range cc.Args {
-			if p := c01ParamOf(a); p != nil && p == W.Params[i+off] {
+		for i, a := range args {
+			if prm := c01ParamOf(a); prm != nil && prm == W.Params[i+off] {
 				continue
 			}
 			if tolerate != nil && tolerate(call, i, a) {
 				continue
 			}
 			if bad == "" {
-				bad = fmt.Sprintf("argument #%d of the wrapped callback (%s) is not the wrapper's own parameter %s", i, CalleeName(call), W.Params[i+off].Name())
+				bad = fmt.Sprintf("argument #%d of the wrapped callback (%s) is not the wrapper's own parameter %s", i, what, W.Params[i+off].Name())
 				pos = call.Pos()
 			}
 		}
+	}
+	for _, call := range Calls(W, func(string) bool { return true }) {
+		cc := call.Common()
+		if cc.IsInvoke() {
+			continue
+		}
+		if _, isB := cc.Value.(*ssa.Builtin); isB {
+			continue
+		}
+		if h := StaticCallee(call); h != nil {
+			// a nil-safe hook helper: runHook(ctx, hook, desc) -> hook(ctx, desc)
+			if !inModule(h) || len(h.Blocks) == 0 {
+				continue
+			}
+			for i, a := range cc.Args {
+				sig, isSig := a.Type().Underlying().(*types.Signature)
+				if !isSig || !types.Identical(sig, W.Signature) || !isPrev(a) || !c01HookHelper(h, i) {
+					continue
+				}
+				for _, inner := range Calls(h, func(string) bool { return true }) {
+					if inner.Common().IsInvoke() || inner.Common().Value != ssa.Value(h.Params[i]) {
+						continue
+					}
+					var eff []ssa.Value
+					okMap := true
+					for _, ia := range inner.Common().Args {
+						hp := c01ParamOf(ia)
+						idx := -1
+						for k, q := range h.Params {
+							if q == hp {
+								idx = k
+							}
+						}
+						if hp == nil || idx < 0 || idx >= len(cc.Args) {
+							okMap = false
+							break
+						}
+						eff = append(eff, cc.Args[idx])
+					}
+					if okMap {
+						check(call, eff, CalleeName(call))
+					}
+				}
+			}
+			continue
+		}
+		sig, ok := cc.Value.Type().Underlying().(*types.Signature)
+		if !ok || !types.Identical(sig, W.Signature) || !isPrev(cc.Value) {
+			continue
+		}
+		check(call, cc.Args, CalleeName(call))
 	}
 	return
 }
@@ -935,6 +1015,12 @@ func c04R5(c *Ctx) {
 	const R = "C04.R5.wrapper-forwards-own-arguments"
 	c.Expect(R, 3)
 	found := 0
+	fields := map[*types.Var]bool{}
+	for _, name := range []string{"PreCopy", "PostCopy", "OnCopySkipped", "OnMounted"} {
+		if fv := c01FieldOf(c.P, "", "CopyGraphOptions", name); fv != nil {
+			fields[fv] = true
+		}
+	}
 	for _, name := range []string{"PreCopy", "PostCopy", "OnCopySkipped", "OnMounted"} {
 		fv := c01FieldOf(c.P, "", "CopyGraphOptions", name)
 		if fv == nil {
@@ -967,7 +1053,7 @@ func c04R5(c *Ctx) {
 					}
 					return false
 				}
-				n, bad, pos := c04ForwardsOwnArgs(W, tolerate)
+				n, bad, pos := c04ForwardsOwnArgs(c.P, W, fields, tolerate)
 				if n == 0 {
 					continue // wraps nothing
 				}
